@@ -352,7 +352,9 @@ func c04Exec(r *vfRun) {
 			r.fail("C04/wait-no-error", "wait", "Wait returned nil after the link was cut with %v", cutErr)
 			return
 		}
-		if cutKind%3 != 0 && !errors.Is(waitErr, cutErr) {
+		// (after a failed client->server write the request may still have reached the peer; its reply then ends the
+		// session with "sid not found" before the cut is seen - Wait reports that first cause)
+		if cutKind%3 != 0 && !errors.Is(waitErr, cutErr) && sim.stats["fault.c2s.wrerr"] == 0 {
 			r.fail("C04/wait-wrong-error", "wait", "Wait returned %v, the transport failed with %v", waitErr, cutErr)
 			return
 		}
